@@ -95,6 +95,62 @@ def _worker(args):
     return out
 
 
+def end_index_accesses(ctx, mod):
+    """[(access instruction, c, guarded?)] for every byte access s[n - c] (c >= 1) whose n derives from strlen(s)"""
+    out = []
+    for fn in mod.defined():
+        M = None
+        for i in fn.insts():
+            if i.op not in ("load", "store") or i.size != 1:
+                continue
+            addr = i.ops[0] if i.op == "load" else i.ops[1]
+            g = fn.defn(addr)
+            if g is None or g.is_param or g.op != "getelementptr" or len(g.ops) != 2:
+                continue
+            M = M or Matcher(fn)
+            base = M.strip(g.ops[0], ("bitcast",))
+            idx = M.strip(g.ops[1])
+            di = fn.defn(idx)
+            if di is None or di.is_param or di.op not in ("add", "sub") or not is_const(di.ops[1]):
+                continue
+            c = const_val(di.ops[1])
+            if c >= (1 << 63):
+                c -= (1 << 64)
+            c = c if di.op == "sub" else -c
+            if c < 1 or c > 64:
+                continue
+            V = M.strip(di.ops[0])
+
+            def leaves(o, seen):
+                o = M.strip(o)
+                d = fn.defn(o)
+                if d is None or d.is_param:
+                    return {o}
+                if d.op == "phi":
+                    if d.id in seen:
+                        return set()
+                    out = set()
+                    for v_, _ in d.incoming:
+                        out |= leaves(v_, seen | {d.id})
+                    return out
+                if d.op in ("add", "sub") and is_const(d.ops[1]):
+                    return leaves(d.ops[0], seen)
+                return {o}
+            lv = leaves(V, frozenset())
+            if not lv or not all(fn.defn(x) is not None and not fn.defn(x).is_param and fn.defn(x).op == "call" and mod.callee_cname(fn.defn(x)) == "strlen"
+                                 and (M.strip(fn.defn(x).ops[0], ("bitcast",)) == base or M.equiv(M.strip(fn.defn(x).ops[0], ("bitcast",)), base)) for x in lv):
+                continue
+            F = ctx.facts(fn)
+            ok = False
+            for f in F.at_inst(i):
+                if M.strip(f[1]) == V and is_const(f[2]):
+                    k = const_val(f[2])
+                    if (f[0] == "ugt" and k >= c - 1) or (f[0] == "uge" and k >= c) or (f[0] == "ne" and k == 0 and c == 1) or (f[0] == "eq" and k >= c):
+                        ok = True
+            out.append((i, c, ok))
+    return out
+
+
 def run(tier, seed):
     rep = Report("C08", tier, "other",
                  "Static memory-safety analysis outside the decompressors (claimed in part): the RANGE abstract interpreter with symbolic linear "
@@ -109,7 +165,7 @@ def run(tier, seed):
                  "the guards are shown to be in force (C12) but their arithmetic sufficiency is not decided.")
     with Context(tier) as ctx:
         from .. import selfcheck
-        selfcheck.run(ctx, rep, ['range', 'own'])
+        selfcheck.run(ctx, rep, ['range', 'own', 'facts'])
         mod = ctx.plain()
         cg = CallGraph(mod)
         paths = ctx.views.inlined_many(list(UNITS))
@@ -272,6 +328,23 @@ def run(tier, seed):
                 rep.check(rid, ok, "%s: read of %s byte(s) at data%s" % (fname, w if isinstance(w, int) else "n", (" + %s" % off) if not off.is_const() or off.c else ""), i.where(),
                           why, function=fname, obj="read@%s" % off)
         rep.extra["slice_reads"] = nsl
+
+        # ---- R3b: indexing a string from its end ------------------------------------------------------------------------------
+        # s[strlen(s) - c] (directly, or through a counter that starts at strlen(s) and is decremented) underflows for strings shorter
+        # than c - the empty string for c = 1 - and then reads or writes before the start of the block, whatever its size.  Required at
+        # the access: a fact that the length (counter) is at least c.
+        rid = rep.rule("R3b", "a string indexed from its end, s[strlen(s) - c] or s[n - c] with n counted down from strlen(s), is accessed only under a fact n >= c", 0)
+        nend = 0
+        for i, c, ok in end_index_accesses(ctx, mod):
+            nend += 1
+            rep.check(rid, ok, "%s: %s of s[n - %d] with n derived from strlen(s)" % (i.src_fn(), i.op, c), i.where(),
+                      None if ok else "no fact that n >= %d here: for a string shorter than %d byte(s) the index wraps and the access lies before the start of the string" % (c, c),
+                      function=i.fn.cname, obj="end-index")
+        rep.extra["end_indexed_string_accesses"] = nend
+
+        # ---- the length guards in force at the raw-data accesses (A-rawdata rests on them): the rules of C12, run here as well ------
+        from .c12 import length_rules
+        length_rules(rep, ctx, mod, cg, prefix="C12.")
 
         # ---- R4a realloc publication ------------------------------------------------------------------------
         rid = rep.rule("R4a", "after a successful realloc the new block is stored back to where the old pointer came from on every path to a return", 1)
